@@ -480,8 +480,15 @@ def gen_scenario(seed: int, stream: str = "shocked", **over) -> dict:
     if stream == "eventfree" and "scale" not in over and rng.random() < 0.25:
         # very small magnitudes (a table in a huge unit): every flow below NumPy's absolute tolerance 1e-8
         over = dict(over, scale=10.0 ** rng.choice([-9, -12, -15]))
+    tiny_ = stream == "eventfree" and random.Random(seed ^ 0x71).random() < 0.3
+    if tiny_ and "m" not in over:
+        over = dict(over, m=random.Random(seed ^ 0x75).choice([2, 2, 3]))      # (its sector has another regional supplier)
+    if tiny_ and random.Random(seed ^ 0x76).random() < 0.7:
+        # mixed magnitudes: ordinary industries above one currency unit per step, the tiny one below
+        over = dict(over, scale=random.Random(seed ^ 0x77).choice([1.0, 1e3]),
+                    cfg=dict(over.get("cfg", {}), monetary_factor=random.Random(seed ^ 0x78).choice([10**6, 10**6, 10**3])))
     tb = gen_table(rng, **{kk: over[kk] for kk in ("m", "n", "k", "kind", "scale", "labels") if kk in over})
-    if stream == "eventfree" and random.Random(seed ^ 0x71).random() < 0.25:
+    if tiny_:
         # one industry nine orders of magnitude smaller than the others (its output per step is below one currency unit
         # of most monetary factors, next to ordinary industries)
         N_ = tb["m"] * tb["n"]
@@ -497,12 +504,12 @@ def gen_scenario(seed: int, stream: str = "shocked", **over) -> dict:
     shock_prone = stream in ("shortage", "crash")
     cfg = gen_model_cfg(rng, tb, shock_prone=shock_prone)
     cfg.update(over.get("cfg", {}))
-    if over.get("_tiny_industry") and random.Random(seed ^ 0x73).random() < 0.7:
+    if over.get("_tiny_industry") and random.Random(seed ^ 0x73).random() < 0.85:
         # ... with a base overproduction factor above 1 (every capacity ratio is then alpha_base, not 1)
         if float(cfg["alpha_max"]) <= 1.0:
             cfg["alpha_max"] = 1.5
         cfg["alpha_base"] = cfg["alpha_max"]
-        cfg["order_type"] = random.Random(seed ^ 0x74).choice(["alt", "alt", "noalt"])
+        cfg["order_type"] = random.Random(seed ^ 0x74).choice(["alt", "alt", "alt", "noalt"])
     T = over.get("T", rng.choice([12, 20, 30]) if stream != "mild" else rng.choice([30, 45]))
     sc = {"seed": seed, "stream": stream, "table": tb, "model": cfg, "T": T, "events": [],
           "sim": {"register_stocks": False, "save_records": [], "events_mode": "one"}}
